@@ -175,7 +175,28 @@ def run_overlay(P, rep, rule="R-OVERLAY"):
                     break
             cur = tt.get("t") if tt["k"] in ("goto", "drop", "call") else None
         if not ok:
-            probs.append("object `size` overlay is not a fallback (or_else) of the real key lookup: a real `size` key could be shadowed")
+            # branch idiom: `if let Some(child) = obj.get(..) { return .. }` then the overlay
+            osize = find(lambda f: f.get("trait", "").endswith("ObjectView") and f["id"].endswith("::size"))
+            holders = {t["d"][0]}
+            for bi2, t2 in calls.items():
+                a0 = op_local(t2["args"][0]) if t2.get("args") else None
+                if a0 and a0[0] in holders and t2.get("f") and t2["f"]["id"].rsplit("::", 1)[1] == "map":
+                    holders.add(t2["d"][0])
+            for bi2, b in enumerate(fn.blocks):
+                tt = b["t"]
+                if tt["k"] != "switch":
+                    continue
+                ol = op_local(tt["o"])
+                if not any(st[0] == "a" and ol and st[1][0] == ol[0] and st[2]["k"] == "discr" and st[2]["p"][0] in holders and not st[2]["p"][1]
+                           for st in b["s"]):
+                    continue
+                some = [tb for v, tb in tt["t"] if v == 1] or [tt["else"]]
+                none = [tb for v, tb in tt["t"] if v == 0] or [tt["else"]]
+                rs, rn = P.reach(fn, some), P.reach(fn, none)
+                if osize and all(o in rn and o not in rs for o in osize):
+                    ok = True
+        if not ok:
+            probs.append("object `size` overlay is not a fallback (or_else / None-branch) of the real key lookup: a real `size` key could be shadowed")
     if probs:
         for p in probs:
             rep.viol(rule, "augmented_get", P.where(fn), p)
